@@ -26,6 +26,7 @@ struct Ctx4 {
     auto x1 = m.Emplace(CstType::base); auto c1 = m.Emplace(CstType::constant);
     auto s1 = m.Emplace(CstType::structured, "ℬ(X1×X1)");
     m.Emplace(CstType::term, "X1\\X1"); m.Emplace(CstType::function, "[a∈ℬ(X1)] {a}"); m.Emplace(CstType::predicate, "[a∈ℬ(X1)] a=X1");
+    m.Emplace(CstType::function, "[a∈ℬ(X1)] {debool(a)}∪{debool(a)}");     // F2: fails at run time inside the inlined body when the argument has two elements
     m.Emplace(CstType::axiom, "X1=X1"); m.Emplace(CstType::theorem, "∀a∈X1 a=a");
     for (int i = 0; i < 2; ++i) { m.Values().AddBasicElement(x1, "x" + std::to_string(i)); m.Values().AddBasicElement(c1, "c" + std::to_string(i)); }
     (void)m.Values().SetStructureData(s1, object::Factory::Set({ object::Factory::TupleV({ 1, 2 }) }));
